@@ -547,9 +547,10 @@ type DlgSpec struct {
 	Pol      []Stmt     `json:"pol,omitempty"`
 	Nbf      *int64     `json:"nbf,omitempty"` // seconds after the simulation epoch
 	Exp      *int64     `json:"exp,omitempty"`
-	SubMilli int64      `json:"sub_ms,omitempty"`    // sub-second part added to the bounds at construction
-	Relative bool       `json:"relative,omitempty"`  // bounds given through With…In (clock-derived)
-	NonceLen int        `json:"nonce_len,omitempty"` // 0: generated
+	SubMilli int64      `json:"sub_ms,omitempty"`     // sub-second part added to the bounds at construction
+	NbfMilli int64      `json:"nbf_sub_ms,omitempty"` // if set, the sub-second part of the not-before (both bounds may then share a second)
+	Relative bool       `json:"relative,omitempty"`   // bounds given through With…In (clock-derived)
+	NonceLen int        `json:"nonce_len,omitempty"`  // 0: generated
 	Meta     []MetaSpec `json:"meta,omitempty"`
 	UseRoot  bool       `json:"use_root,omitempty"`  // constructed with delegation.Root
 	PolSpare bool       `json:"pol_spare,omitempty"` // policy assembled with append(policy.Construct(a...), policy.Construct(b...)...): slice with spare capacity
